@@ -482,6 +482,14 @@ def r_cmp(prog, run):
         run.instance(rid)
         vals = {st[1] for st in exits if st and st[0] == 'ret'}
         if None in vals or not vals:
+            joined = _joins_keys(prog, cmpf)
+            if joined is not None:
+                g, nid = joined
+                run.violation(rid, 'identityLessThan#not-lexicographic', g.loc(nid),
+                              'the identity comparator compares one string joined from several keys (%s) instead of comparing key by key: the separator takes part in the '
+                              'comparison, so the order differs from (category, type, language, name) as soon as a key contains a character below it' % g.fmt(nid, inline=False)[:70])
+                _identity_string(prog, run, rid, f)
+                return
             if unknown:
                 raise AnalysisBroken('C20.R2: the identity comparator uses %s, whose form the checker does not know' % unknown[0])
             raise AnalysisBroken('C20.R2: the identity comparator does not reduce to comparisons of (category, type, language, name) for ordering %s' % (rel,))
@@ -503,6 +511,26 @@ def r_cmp(prog, run):
         run.violation(rid, 'identityLessThan#collation', cmpf.loc(), 'identity keys are compared in %s order; XEP-0115 requires i;octet (UTF-8 byte order), which differs for '
                                                                       'characters outside the BMP' % '/'.join(sorted(kinds_used)))
     _identity_string(prog, run, rid, f)
+
+
+def _joins_keys(prog, cmpf, depth=0):
+    """(fn, node) of a concatenation of two or more identity keys used by the comparator (directly or in a same-file key function)"""
+    for i in range(len(cmpf.nodes)):
+        bo = cmpf.binop(i)
+        if bo and bo[0] == '+':
+            parts = _flatten(cmpf, i)
+            n_keys = sum(1 for x in parts if cmpf.nodes[_strip_conv(cmpf, x)]['k'] == 'call' and cmpf.cname(cmpf.nodes[_strip_conv(cmpf, x)]).startswith(IDENT))
+            if n_keys >= 2:
+                return cmpf, i
+    if depth < 2:
+        for i, n in cmpf.calls():
+            if not n.get('op'):
+                for h in prog.callee_fns(cmpf, n):
+                    if h.file == cmpf.file and h.entry is not None and h.id != cmpf.id:
+                        r = _joins_keys(prog, h, depth + 1)
+                        if r:
+                            return r
+    return None
 
 
 def _tuple_form(prog, cmpf):
